@@ -62,7 +62,7 @@ fn scripted_scalar_step_dir(m: Method, vals: &[f64], atol: f64, dir: f64) -> Res
         calls: RefCell::new(Vec::new()),
     };
     let lo = LowOpts { first_step: Some(dir), dense: false, ..Default::default() };
-    let mut rec = Rec { f: &f, thetas: vec![], steps: Vec::new() };
+    let mut rec = Rec { f: &f, thetas: vec![], steps: Vec::new(), modify_at: None };
     run_low(m, &f, 0.0, &[0.0], dir, &Tol::S(0.0), &Tol::S(atol), &lo, &mut rec)?;
     if rec.steps.len() < 2 {
         return Err("no step was completed".into());
@@ -96,7 +96,7 @@ fn first_step_accepted(m: Method, p: &Composite, x0: f64, h: f64, atol: f64) -> 
 pub fn run(ctx: &Ctx) -> (Report, Meta) {
     let res_tol = 2e-13;
     let meta = Meta::new(
-        "(1) for RK4, RK23, DOPRI5, DOP853 the extended Butcher tableau (every evaluation of a step incl. FSAL and dense stages) is extracted from the real stepper in 8 variants (first / second / third step of a run, both signs of h, x0 != 0, steps clipped by xend) and checked against ALL rooted-tree order conditions up to order p (8 trees for p=4 ... 200 trees for p=8), row sums = c, consistency between variants, and non-vacuity (some tree of order p+1 fails); (2) the embedded estimator is probed with a scalar scripted right-hand side answering stage j with the elementary weight Phi_j(t): steps must be accepted for every tree of order <= q^ and rejected for some tree of order q^+1; polynomial quadratures y' = k t^(k-1); estimator size T(h) measured by bisection on atol, slope q^+1; (3) local error slopes of one step from exact data on closed-form nonlinear problems (both signs of h), one Radau step on y' = lambda y and 2x2 rotation-decay systems vs the (2,3) Pade approximant for real and complex z, fitted exponent of naccpt(tol); non-trivial = (method, variant or tree or problem, h) obligation that was actually evaluated (distinct by hash)",
+        "(1) for RK4, RK23, DOPRI5, DOP853 the extended Butcher tableau (every evaluation of a step incl. FSAL and dense stages) is extracted from the real stepper in 13 variants (first / second / third step of a run, both signs of h, x0 != 0, steps clipped by xend, and the step that follows a ModifiedSolution answer of the callback) and checked against ALL rooted-tree order conditions up to order p (8 trees for p=4 ... 200 trees for p=8), row sums = c, consistency between variants, and non-vacuity (some tree of order p+1 fails); (2) the embedded estimator is probed with a scalar scripted right-hand side answering stage j with the elementary weight Phi_j(t): steps must be accepted for every tree of order <= q^ and rejected for some tree of order q^+1; polynomial quadratures y' = k t^(k-1); estimator size T(h) measured by bisection on atol, slope q^+1; (3) local error slopes of one step from exact data on closed-form nonlinear problems (both signs of h), one Radau step on y' = lambda y and 2x2 rotation-decay systems vs the (2,3) Pade approximant for real and complex z, fitted exponent of naccpt(tol); non-trivial = (method, variant or tree or problem, h) obligation that was actually evaluated (distinct by hash)",
     )
     .assume("Butcher's order-condition theory: a Runge-Kutta method has order p iff sum_i b_i Phi_i(t) = 1/gamma(t) for all rooted trees of order <= p")
     .assume("extraction arithmetic is exact: y0 = 0, |h| a power of two, unit-vector answers")
@@ -117,15 +117,24 @@ pub fn run(ctx: &Ctx) -> (Report, Meta) {
         let p = order_of(m);
         let mname_ = mname(m);
         let mut first: Option<Tableau> = None;
-        for (vi, &(x0, h, step, clip)) in variants().iter().enumerate() {
+        // every variant as it is, then four of them with a ModifiedSolution answer (state rewritten unchanged) at the
+        // callback that precedes the extracted step: the step after a modification is a Runge-Kutta step like any other
+        let mut vlist: Vec<(f64, f64, usize, Option<f64>, bool)> = variants().iter().map(|&(a, b, c, d)| (a, b, c, d, false)).collect();
+        for &(a, b, c, d) in &[(0.0, 1.0, 1usize, None), (0.0, -1.0, 2, None), (3.0, 0.5, 2, None), (-2.0, -0.25, 3, None), (1.0, -2.0, 1, Some(0.25))] {
+            vlist.push((a, b, c, d, true));
+        }
+        for (vi, &(x0, h, step, clip, modify)) in vlist.iter().enumerate() {
             let case_id = format!("extract/{}/{}", mname_, vi);
             if !ctx.want(&case_id) {
                 continue;
             }
-            let vdesc = json!({"method": mname_, "x0": x0, "h": h, "step_index": step, "clipped_to": clip});
-            let cls = format!("{}{}{}", if step > 1 { "later_step" } else { "first_step" }, if h < 0.0 { "_backward" } else { "" }, if clip.is_some() { "_clipped" } else { "" });
+            let vdesc = json!({"method": mname_, "x0": x0, "h": h, "step_index": step, "clipped_to": clip, "modified_solution_before_step": modify});
+            let cls = format!("{}{}{}", if step > 1 { "later_step" } else { "first_step" }, if h < 0.0 { "_backward" } else { "" }, if clip.is_some() { "_clipped" } else { "" }) + if modify { "_after_modified_solution" } else { "" };
             rep.eval();
-            let t = match std::panic::catch_unwind(|| extract(m, x0, h, step, clip, &thetas)) {
+            if modify {
+                rep.count("tableau_variants_after_modified_solution", 1);
+            }
+            let t = match std::panic::catch_unwind(|| extract_ex(m, x0, h, step, clip, &thetas, modify)) {
                 Ok(Ok(t)) => t,
                 Ok(Err(e)) => {
                     rep.violate(&format!("C02/tableau_extraction/{}/{}", mname_, cls), format!("the stepper did not behave like a Runge-Kutta step with the scripted right-hand side: {}", e), &case_id, vdesc);
